@@ -9,6 +9,7 @@ pub mod c10;
 pub mod c11;
 pub mod c11_l2;
 pub mod c14;
+pub mod c17;
 pub mod c18;
 pub mod c20;
 pub mod c14_extra;
@@ -23,6 +24,7 @@ pub fn dispatch(args: &Args) -> i32 {
         "C10" => c10::run(args),
         "C11" => c11::run(args),
         "C14" => c14::run(args),
+        "C17" => c17::run(args),
         "C18" => c18::run(args),
         "C20" => c20::run(args),
         other => {
